@@ -233,3 +233,68 @@ Proof.
   exists c. repeat split; auto. rewrite H. reflexivity.
 Qed.
 Print Assumptions C13_linearizable_nonvacuous.
+
+(* ---------------------------------------------------------------- idle expiry (conf.go:817-832) *)
+(* Every API call first expires sessions idle for the limit (15 min) or longer.  In every reachable state:
+   expiry never touches a datastore; sessions that are not idle are left exactly as they are (the whole
+   state is unchanged); an idle session disappears together with its lock, so the next Create is granted
+   and every call naming the expired session is refused. *)
+Theorem C13_idle_expiry :
+  forall reg g r ops,
+  let st := run Repaired reg g (init_state r) ops in
+  persisted (expire st) = persisted st /\
+  ((forall s, In s (sessions st) -> (s_idle s <? idle_limit)%N = true) -> expire st = st) /\
+  (forall s, In s (sessions st) -> (s_idle s <? idle_limit)%N = false ->
+     sessions (expire st) = [] /\ lock (expire st) = None /\
+     snd (do_create st) = RId (next_id st + 1)%N /\
+     forall id, (forall p v vf, do_set Repaired reg st id p v vf = (expire st, RNoSession)) /\
+                (forall f, do_commit Repaired reg g st id f = (expire st, RNoSession, [])) /\
+                do_close st id = (expire st, RNoSession) /\ do_delete st id = (expire st, RNoSession)).
+Proof.
+  intros reg g r ops st. assert (HI : Inv st) by apply inv_run, inv_init.
+  split; [apply expire_persisted|]. split; [apply expire_alive|].
+  intros s Hin Ha. destruct (expire_idle _ _ HI Hin Ha) as [A B].
+  repeat split; auto.
+  - eapply expired_create; eauto.
+  - eapply expired_refused; eauto.
+  - eapply expired_refused; eauto.
+  - eapply (expired_refused Repaired reg g); eauto.
+  - eapply (expired_refused Repaired reg g); eauto.
+Qed.
+Print Assumptions C13_idle_expiry.
+
+(* a Set that finds its session refreshes the activity stamp (so does Delete and a failed Commit, by
+   [touch_state] in C13_atomic) *)
+Theorem C13_set_touches :
+  forall var reg st id p v vf st' r,
+  do_set var reg st id p v vf = (st', r) -> r <> RNoSession ->
+  forall s, In s (sessions st') -> s_id s = id -> s_idle s = 0%N.
+Proof. exact set_touches. Qed.
+Print Assumptions C13_set_touches.
+
+(* non-vacuity: 14 + 1 minutes of inactivity expire the session; 14 do not *)
+Example C13_idle_expiry_nonvacuous :
+  let st14 := run Repaired ex_reg None (init_state empty_store) [OCreate; OTick 14] in
+  let st15 := run Repaired ex_reg None (init_state empty_store) [OCreate; OTick 14; OTick 1] in
+  expire st14 = st14 /\ snd (do_create st14) = RLocked /\
+  sessions (expire st15) = [] /\ snd (do_create st15) = RId 2 /\
+  snd (do_set Repaired ex_reg st15 1 ex_p (VInt 1) false) = RNoSession.
+Proof. vm_compute. repeat split. Qed.
+Print Assumptions C13_idle_expiry_nonvacuous.
+
+(* ---------------------------------------------------------------- exactly what was set *)
+(* In every reachable state a successful Commit publishes exactly the previous running configuration
+   with the Sets of this session replayed on it in the order they were made (each Set = containers on the
+   way + the converted value at the leaf; failed Sets contribute nothing).  Together with C13_frame this
+   is "changes only what was set, and to what it was set". *)
+Theorem C13_commit_publishes_replay :
+  forall reg g r ops id f st' evs,
+  let st := run Repaired reg g (init_state r) ops in
+  do_commit Repaired reg g st id f = (st', ROk, evs) ->
+  exists s, find_session (sessions (expire st)) id = Some s /\
+            running st' = replay reg (running st) (s_changes s).
+Proof.
+  intros reg g r ops id f st' evs st H.
+  eapply commit_publishes_replay; eauto; [apply inv_run, inv_init | apply inv2_run; [apply inv_init | apply inv2_init]].
+Qed.
+Print Assumptions C13_commit_publishes_replay.
